@@ -11,12 +11,14 @@ def parseVal (s : String) : Option Val :=
   if s.startsWith "i" then (s.drop 1).toString.toInt?.map .int
   else if s.startsWith "b" then some (.bool ((s.drop 1).toString == "1"))
   else if s.startsWith "s" then (s.drop 1).toString.toNat?.map .str
+  else if s.startsWith "h" then (s.drop 1).toString.toInt?.map .flt     -- h<2·x>: the float x (an exact half-integer)
   else none
 
 def showVal : Val → String
   | .int i => s!"i{i}"
   | .bool b => if b then "b1" else "b0"
   | .str s => s!"s{s}"
+  | .flt t => s!"h{t}"
 
 def parseCmp (s : String) : Option Cmp :=
   match s with
